@@ -9,6 +9,16 @@ import construct  # type: ignore
 from han import aidon, dlde, kaifa, kamstrup
 from han.common import MeterMessageBase
 
+# Errors raised by a decoder when the message is not in the format of that decoder.
+_DECODER_ERRORS = (
+    construct.ConstructError,
+    ValueError,
+    ArithmeticError,
+    LookupError,
+    TypeError,
+    AttributeError,
+)
+
 
 class AutoDecoder:
     """
@@ -64,7 +74,7 @@ class AutoDecoder:
                 decoded = decoder(payload)
                 self.__previous_success = index
                 return decoded
-            except (construct.ConstructError, ValueError):
+            except _DECODER_ERRORS:
                 pass
 
         return None
@@ -98,7 +108,7 @@ class AutoDecoder:
                 )
                 self.__previous_success = index
                 return decoded
-            except (construct.ConstructError, ValueError):
+            except _DECODER_ERRORS:
                 pass
 
         return None
